@@ -49,7 +49,7 @@ var c08PerByte = map[string]int{"cbe": 4 << 10, "cte": 24 << 10}
 
 // families listed as open known findings (excluded by construction, counted)
 var c08KnownFamilies = map[string]string{"cte-open-braces": "S68-cte-map-as-key-nesting-superlinear",
-	"cte-long-verbatim-sentinel": "S88-cte-long-verbatim-sentinel-superlinear"}
+	"cte-long-verbatim-sentinel": "S88-cte-verbatim-sequences-superlinear", "cte-many-verbatim": "S88-cte-verbatim-sequences-superlinear"}
 
 var c08WarmOnce sync.Once
 
@@ -678,6 +678,7 @@ func init() {
 					pipelines = append(pipelines, "unmarshal-typed:"+f.name)
 				}
 				for _, pipeline := range pipelines {
+					famStart := time.Now()
 					if key := c08KnownFamilies[f.name]; key != "" && harness.Open(key) {
 						ctx.Stats.Exclude(key)
 						continue
@@ -713,6 +714,9 @@ func init() {
 						} else {
 							r.Verdict = "inconclusive"
 						}
+					}
+					if d := time.Since(famStart); d > 8*time.Second {
+						ctx.Stats.Note(fmt.Sprintf("cost of the deterministic part: %s (%s) took %.0f s", f.name, pipeline, d.Seconds()))
 					}
 					ctx.Stats.Count("timing:"+r.Verdict, 1)
 					ctx.Stats.Bulk(int64(len(r.Millis)), 1)
@@ -762,7 +766,9 @@ func init() {
 			ctx.LabelIf(f.hostile, "hostile-length")
 			ctx.LabelIf(f.hostile && c.N >= 127, "hostile-length with >= 127 payload bytes")
 			ctx.NonTrivial(f.hostile || c.N >= 1000)
+			caseStart := time.Now()
 			alloc, timedOut := c08Alloc(f.format, c.Pipeline, doc, cfg)
+			ctx.Stats.Count("ms_in_random_part:"+c.Family, time.Since(caseStart).Milliseconds())
 			if timedOut {
 				ctx.Hung = true
 				return fmt.Errorf("decoding a %d-byte document of family %s did not finish within the deadline", len(doc), c.Family)
